@@ -2,6 +2,7 @@ package occ4
 
 import (
 	"context"
+	"errors"
 	"fmt"
 	"sort"
 	"strings"
@@ -34,6 +35,11 @@ type Outcome struct {
 	// still judges it).
 	ReadAliased bool
 	Unfinished  bool
+	// ReaderPanics: panics of the real code inside the cold reader (one entry per dump that panicked).
+	ReaderPanics []ReaderPanic
+	// ProbeCounts / ProbeItems: cold dumps taken while a writer stood at a sub-gate (Scenario.ProbeAtSubPark); for the
+	// direct oracle only, never tied to the model (the writer is in the middle of a step).
+	Probes int
 	// OrphanBlobs: blob files left on disk after all writers finished that nothing reachable from the root refers to.
 	OrphanBlobs int
 	WalkProblem string
@@ -172,6 +178,14 @@ func Drive(ctx context.Context, s *hx.Session, sc Scenario, sched []int, header 
 			}
 		}
 		c, items, err := r.Dump()
+		var rp *ReaderPanic
+		if errors.As(err, &rp) {
+			// the real code panicked inside the cold reader: recorded for the direct oracle; the count was read before
+			// the scan, the items read so far are kept and the key being read is marked
+			o.ReaderPanics = append(o.ReaderPanics, *rp)
+			items = append(items, "!panic")
+			err = nil
+		}
 		if err != nil {
 			return err
 		}
@@ -211,6 +225,17 @@ func Drive(ctx context.Context, s *hx.Session, sc Scenario, sched []int, header 
 			// reaches its next model gate; the steps other writers make meanwhile are written in their real order
 			midWas[i] = was
 			hits = append(hits, "sub_park:"+w.ParkedAt[4:])
+			if sc.ProbeAtSubPark {
+				// what a cold reader meets while this writer stands there (oracle only)
+				o.Probes++
+				_, _, perr := r.Dump()
+				var rp *ReaderPanic
+				if errors.As(perr, &rp) {
+					o.ReaderPanics = append(o.ReaderPanics, *rp)
+				} else if perr != nil {
+					return perr
+				}
+			}
 			return nil
 		}
 		o.Steps++
@@ -480,4 +505,26 @@ func DetectVariant(ctx context.Context) (string, error) {
 		}
 	}
 	return "legacy", nil
+}
+
+// PanicSlug is a short, mechanism-specific name of a reader panic: "<what the reader did>:<panic class>@<function>",
+// e.g. "find:index-out-of-range[-1]@getCurrentItem".
+func PanicSlug(rp ReaderPanic) string {
+	what := rp.During
+	if i := strings.Index(what, ":"); i > 0 {
+		what = what[:i]
+	}
+	msg := strings.TrimPrefix(rp.Msg, "runtime error: ")
+	msg = strings.ReplaceAll(msg, " ", "-")
+	if len(msg) > 40 {
+		msg = msg[:40]
+	}
+	fn := rp.Stack
+	if i := strings.Index(fn, "<"); i > 0 {
+		fn = fn[:i]
+	}
+	if i := strings.LastIndex(fn, "."); i >= 0 {
+		fn = fn[i+1:]
+	}
+	return what + ":" + msg + "@" + fn
 }
